@@ -41,6 +41,14 @@ impl Tracked {
         }
         self.val
     }
+
+    /// overwrites the value through a mutable reference handed out by a container
+    pub fn set_val(&mut self, val: u8) {
+        if self.marker != ALIVE {
+            TABLE.with(|t| t.borrow_mut().poisoned_seen += 1);
+        }
+        self.val = val;
+    }
 }
 
 impl Clone for Tracked {
@@ -54,6 +62,9 @@ impl PartialEq for Tracked {
         self.val() == o.val()
     }
 }
+
+/// `val()` equality is reflexive, symmetric and transitive (flat map keys need `Eq`)
+impl Eq for Tracked {}
 
 impl core::fmt::Debug for Tracked {
     fn fmt(&self, f: &mut core::fmt::Formatter<'_>) -> core::fmt::Result {
